@@ -50,11 +50,11 @@ REAL_VS_STUB = {
     'real': ['optree engine serialization + registry re-binding', 'CPython pickle / copy', 'a real second interpreter process for restart histories'],
     'stub_or_simulator_owned': ['registration log and its drift', 'custom flatten/unflatten callables', 'GC timing', 'which history happens between dump and load'],
 }
-EXPECTED_PROBES = ('derived:child', 'derived:compose', 'derived:ctor', 'history:same-process', 'history:gc-between', 'history:drift-unregister', 'history:drift-reregister-same',
+EXPECTED_PROBES = ('early-load-before-drift', 'history:drift-reregister-other', 'derived:child', 'derived:compose', 'derived:ctor', 'history:same-process', 'history:gc-between', 'history:drift-unregister', 'history:drift-reregister-same',
                    'history:drift-global-only', 'history:restart-same', 'history:restart-missing', 'history:restart-other-ns',
                    'load:refused', 'load:ok', 'mentions-custom', 'mode:insertion', 'proto:2', 'proto:3', 'proto:4', 'proto:5')
 
-HISTORIES = ('same-process', 'gc-between', 'drift-unregister', 'drift-reregister-same', 'drift-global-only', 'restart-same',
+HISTORIES = ('same-process', 'gc-between', 'drift-unregister', 'drift-reregister-same', 'drift-reregister-other', 'drift-global-only', 'restart-same',
              'restart-missing', 'restart-other-ns')
 CLS = {c.__name__: c for c in U.CUSTOM_CLASSES}
 
@@ -229,8 +229,17 @@ def run_job(job, io):
             if d:
                 viol('field-differs-fresh', site, 'loaded treespec differs from a fresh flatten: %s' % d)
 
-    if history in ('same-process', 'gc-between', 'drift-unregister', 'drift-reregister-same', 'drift-global-only'):
+    if history in ('same-process', 'gc-between', 'drift-unregister', 'drift-reregister-same', 'drift-reregister-other', 'drift-global-only'):
         drifted = None
+        # a first load BEFORE the history happens; its result stays alive (so does everything a loader may have cached)
+        early = []
+        if tape.draw(2, 'early-load'):
+            probes['early-load-before-drift'] += 1
+            for it in items:
+                try:
+                    early.append(pickle.loads(it['data']))
+                except Exception:  # noqa: BLE001 - judged by the main load below
+                    pass
         if history == 'gc-between':
             gc.collect()
         elif history.startswith('drift') and reg_log:
@@ -243,6 +252,12 @@ def run_job(job, io):
             if history == 'drift-reregister-same':
                 optree.register_pytree_node(CLS[cname], f.flatten, f.unflatten, namespace=GLOBAL if ns0 is None else ns0)
                 live[(cname, ns0)] = f
+            elif history == 'drift-reregister-other':
+                # same metadata shape (same rid and style) but NEW callables: a spec loaded afterwards must be bound to them
+                f2 = U.Funcs(CLS[cname], f.rid, f.style)
+                f2.generation = 2
+                optree.register_pytree_node(CLS[cname], f2.flatten, f2.unflatten, namespace=GLOBAL if ns0 is None else ns0)
+                live[(cname, ns0)] = f2
             elif history == 'drift-global-only':
                 if ns0 is not None and (cname, None) not in live:
                     optree.register_pytree_node(CLS[cname], f.flatten, f.unflatten, namespace=GLOBAL)
@@ -286,6 +301,14 @@ def run_job(job, io):
                 if rebound:
                     probes['rebound-to-new-registration-object'] += 1
                 check_loaded(it, loaded, site, fresh, rebound=rebound)
+                if rebound and history in ('drift-reregister-same', 'drift-reregister-other', 'drift-global-only') and not violations:
+                    # the loaded spec must use the registration that is CURRENT in the loading process: its unflatten function runs
+                    cur = live.get((drifted[0], it['ns'] if it['ns'] else None)) or live.get((drifted[0], None))
+                    if cur is not None:
+                        c0 = cur.unflatten_calls
+                        loaded.unflatten(it['leaves'])
+                        if cur.unflatten_calls == c0:
+                            viol('stale-binding', site, 'a treespec loaded after %s was re-registered is not bound to the current registration (its unflatten function is not the one called)' % drifted[0])
                 # other round-trip routes on the loaded object
                 for route, fn in (('copy', copy.copy), ('deepcopy', copy.deepcopy),
                                   ('setstate', lambda s: _setstate_roundtrip(s))):
